@@ -198,9 +198,44 @@ where
         Wire::Http1 => Box::new(http1_codec::Http1Codec::new(settings, io, id.clone())),
         Wire::Http2 => Box::new(http2_codec::Http2Codec::new(settings, io, id.clone())?),
     };
+    // the wind-down of the codec, as the session handler sees it: `WindBegin` when
+    // `graceful_shutdown` is entered, `WindEnd` when it has returned
+    let codec: Box<dyn HttpCodec> = Box::new(WindTraced(codec));
     match service {
         Service::Ping => http_ping_handler::listen(shutdown, codec, timeout, id).await,
         Service::Speedtest => http_speedtest_handler::listen(shutdown, codec, timeout, id).await,
     }
     Ok(())
+}
+
+/// A codec whose `graceful_shutdown` is bracketed by the events `WindBegin` / `WindEnd`
+/// (participant of the calling task, protocol, result). Everything is delegated.
+struct WindTraced(Box<dyn HttpCodec>);
+
+#[async_trait::async_trait]
+impl HttpCodec for WindTraced {
+    async fn listen(&mut self) -> io::Result<Option<Box<dyn crate::http_codec::Stream>>> {
+        self.0.listen().await
+    }
+
+    async fn graceful_shutdown(&mut self) -> io::Result<()> {
+        crate::verif_emit!(
+            "WindBegin",
+            "\"p\":{},\"proto\":\"{:?}\"",
+            current(),
+            self.0.protocol()
+        );
+        let r = self.0.graceful_shutdown().await;
+        crate::verif_emit!(
+            "WindEnd",
+            "\"p\":{},\"ok\":{}",
+            current(),
+            r.is_ok()
+        );
+        r
+    }
+
+    fn protocol(&self) -> crate::tls_demultiplexer::Protocol {
+        self.0.protocol()
+    }
 }
